@@ -89,13 +89,14 @@ def run_path_c02(menu, path, is_leaf, inv_props=()):
                 if ret is not exp:
                     vio.append(_vio("C02", "wrong-return", f"{ev[0]}() returned {ret!r}, timeline (len {len(tl.states)}, cursor {tl.cursor}) says {exp}", menu, path))
                     dead = True
+                if not exp and out.refresh:
+                    # the timeline has nothing to step to, whatever the call claims to have done
+                    vio.append(_vio("C20", "refresh-on-noop", f"{len(out.refresh)} emission(s) from {ev[0]}() (returned {ret!r}) with nothing to step to", menu, path))
                 if not exp and ret is False:
                     snap = canon.snapshot(tracks)
                     if snap != pre_snap:
                         vio.append(_vio("C02", "false-step-changed-state", "; ".join(canon.diff(pre_snap, snap)), menu, path))
                         dead = True
-                    if out.refresh:
-                        vio.append(_vio("C20", "refresh-on-noop", f"{len(out.refresh)} emission(s) from {ev[0]}() == False", menu, path))
                 if ret is True and len(out.refresh) != 1:
                     vio.append(_vio("C20", "refresh-count-" + ev[0], f"{len(out.refresh)} emission(s) from a successful {ev[0]}", menu, path))
         else:
@@ -107,7 +108,7 @@ def run_path_c02(menu, path, is_leaf, inv_props=()):
                         vio.append(_vio("C02", "steps-per-action",
                                         f"stacks went from undo={u0},redo={r0} to undo={len(h.undo_stack)},redo={len(h.redo_stack)} on one top-level action",
                                         menu, path, tag=events.branch_tag(out.action)))
-                        dead = True
+                        # (the observable state still follows the model: the sequence is extended)
                     if len(out.refresh) != 1:
                         vio.append(_vio("C20", "refresh-count", f"{len(out.refresh)} emission(s) from one accepted action", menu, path))
             elif out.status == "raised":
@@ -125,7 +126,8 @@ def run_path_c02(menu, path, is_leaf, inv_props=()):
                 vio.append(_vio("C02", "state-differs-from-timeline",
                                 f"after {ev[0]}: " + "; ".join(canon.diff(tl.current, obs)), menu, path))
                 dead = True
-            elif inv_props and ev in (UNDO, REDO):
+            if inv_props and ev in (UNDO, REDO):
+                # evaluated on whatever state the undo / redo produced
                 bad = explore.run_invariants(tracks, cfg, inv_props)
                 for p, lst in bad.items():
                     for clause, detail in lst[:2]:
